@@ -92,25 +92,63 @@ func c13Getter(e *Env) {
 		ok := has(`getter==""`) && has("MustGetter!=nil") && has("must==true")
 		r.Check(ok, "R13.4", key+"#error-guards", fmt.Sprintf("the rejection is guarded by getter empty ∧ must_getter set ∧ resolved value true; found guards %v", conds), e.P.Pos(s.call.Pos()))
 	}
-	// when the getter is empty the resulting must-getter is false: a store of false guarded by getter == ""
-	okFalse := false
-	for _, b := range fn.Blocks {
-		for _, ins := range b.Instrs {
-			if phi, ok := ins.(*ssa.Phi); ok && phi.Type().String() == "bool" {
-				for _, ed := range phi.Edges {
-					if c, ok := ed.(*ssa.Const); ok && c.Value != nil && c.Value.String() == "false" {
-						okFalse = true
+	// when the getter is empty the resulting must-getter is false: the constant false becomes the second
+	// result (directly in a return, through a phi edge, or by a store into the named result) in a block
+	// that is reached only when getter == "" held
+	guardedByEmpty := func(blk *ssa.BasicBlock) bool {
+		for d := blk; d != nil; d = d.Idom() {
+			id := d.Idom()
+			if id == nil {
+				break
+			}
+			iff, ok := id.Instrs[len(id.Instrs)-1].(*ssa.If)
+			if !ok {
+				continue
+			}
+			// the edge from id that leads to d (d may be a join of several edges: accept only single-pred steps,
+			// or a successor that is only reachable through one edge of id)
+			for i, su := range id.Succs {
+				if (su == d && len(d.Preds) == 1) || (su != d && len(su.Preds) == 1 && su.Dominates(d)) {
+					if describeCond(iff.Cond, i == 0) == `getter==""` {
+						return true
 					}
 				}
 			}
-			if st, ok := ins.(*ssa.Store); ok {
-				if c, ok := st.Val.(*ssa.Const); ok && c.Value != nil && c.Value.String() == "false" {
+			// `if getter != "" || !must { return }`: the fall-through is reached only through the false edges
+			if onlyThroughFalse(id, d) && describeCond(iff.Cond, false) == `getter==""` {
+				return true
+			}
+		}
+		return false
+	}
+	isFalse := func(v ssa.Value) bool {
+		c, ok := v.(*ssa.Const)
+		return ok && c.Value != nil && c.Value.String() == "false"
+	}
+	okFalse := false
+	for _, b := range fn.Blocks {
+		for _, ins := range b.Instrs {
+			switch x := ins.(type) {
+			case *ssa.Phi:
+				if x.Type().String() == "bool" {
+					for i, ed := range x.Edges {
+						if isFalse(ed) && guardedByEmpty(b.Preds[i]) {
+							okFalse = true
+						}
+					}
+				}
+			case *ssa.Store:
+				if isFalse(x.Val) && guardedByEmpty(b) {
+					okFalse = true
+				}
+			case *ssa.Return:
+				if len(x.Results) == 3 && isFalse(x.Results[1]) && guardedByEmpty(b) {
 					okFalse = true
 				}
 			}
 		}
 	}
-	r.Check(okFalse, "R13.4", key+"#no-getter-no-must", "an inherited default must-getter is dropped for a service without getter (no Must method for a missing getter)")
+	r.Check(okFalse, "R13.4", key+"#no-getter-no-must", "an inherited default must-getter is dropped for a service without getter (no Must method for a missing getter): the constant false becomes the result on a path where the getter is empty")
 }
 
 // describeCond renders the few condition shapes of getter() in a normal form.
